@@ -179,3 +179,38 @@ func TestF12ResetAfterNestedCall(t *testing.T) {
 		t.Fatal("Encoder.Reset inside MarshalJSONTo did not panic after a nested MarshalEncode of a type with MarshalJSONTo")
 	}
 }
+
+// F13: AppendRaw handed the live encoder buffer to the user's AppendText and trusted the
+// returned slice to be an extension of it.
+type f13A struct{ Mode, Out string }
+
+func (a f13A) AppendText(b []byte) ([]byte, error) {
+	switch a.Mode {
+	case "drop":
+		return []byte(a.Out), nil
+	case "trunc":
+		return append(b[:max(0, len(b)-3)], a.Out...), nil
+	}
+	return append(b, a.Out...), nil
+}
+
+func TestF13AppendTextContract(t *testing.T) {
+	for _, v := range []any{
+		[]f13A{{"", "x"}, {"drop", "y"}},
+		[]f13A{{"", "x"}, {"drop", "yyyyyyyyyyyy"}},
+		map[string]f13A{"k": {"drop", `yyyyyyyyyyyy"`}},
+		[]any{"abcdef", f13A{"trunc", "y"}},
+	} {
+		func() {
+			defer func() {
+				if r := recover(); r != nil {
+					t.Errorf("Marshal(%+v) panicked: %v", v, r)
+				}
+			}()
+			out, err := json.Marshal(v)
+			if err == nil && !stdjson.Valid(out) {
+				t.Errorf("Marshal(%+v) = %s with nil error: not JSON", v, out)
+			}
+		}()
+	}
+}
